@@ -221,11 +221,13 @@ class World:
     """One run's sandbox: scratch directory, processes, fault plan, log."""
 
     def __init__(self, log: EventLog, plan: dict | None = None,
-                 block: int = 4096, tag: str = "w") -> None:
+                 block: int = 4096, tag: str = "w",
+                 root: str | None = None, real_crash: bool = False) -> None:
         self.log = log
-        self.root = real.mkstemp  # placeholder, replaced below
-        self.root = tempfile.mkdtemp(prefix=f"verif-{os.getpid()}-{tag}-",
-                                     dir=SCRATCH_BASE)
+        self.external_root = root is not None
+        self.real_crash = real_crash    # crash = os._exit (a real process)
+        self.root = root or tempfile.mkdtemp(
+            prefix=f"verif-{os.getpid()}-{tag}-", dir=SCRATCH_BASE)
         self.sched: Scheduler | None = None
         self.block = block
         # plan: {"<proc>#<n>": {"kind": ...}}  n = 1-based fs call of proc
@@ -261,7 +263,8 @@ class World:
             for f in list(p.files):
                 f._drop()
         self.leave_proc(None)
-        shutil.rmtree(self.root, ignore_errors=True)
+        if not self.external_root:
+            shutil.rmtree(self.root, ignore_errors=True)
 
     def path(self, *parts: str) -> str:
         return os.path.join(self.root, *parts)
@@ -437,6 +440,8 @@ class World:
             self.fired["crash"] = self.fired.get("crash", 0) + 1
             self.crash_sites.append(f"{kind}@{proc.fs_calls}")
             self.log.add("CRASH", proc.name, label)
+            if self.real_crash:
+                os._exit(137)           # the process really dies here
             proc.kill()
             if self.on_crash is not None:
                 self.on_crash(proc, label)
